@@ -75,6 +75,7 @@ struct F3 : PredBase { bool operator()(const Big & v) const; };
 
 struct World {
 	Queue q;
+	std::unique_ptr<Queue> shadow;     // a copy of q taken by `hcopy`: independent of q from then on
 	std::vector<Queue::Handle> handles;
 	std::vector<std::string> out;
 	void res(const std::string & r) { out.push_back("ev res " + r); }
@@ -90,6 +91,41 @@ bool F0::operator()() const { predCalled("0", "-"); return test(0); }
 bool F1::operator()(int v) const { predCalled("1", std::to_string(v)); return test(v); }
 bool F2::operator()(const std::string & v) const { predCalled("2", v); return test(std::stol(v.substr(1))); }
 bool F3::operator()(const Big & v) const { predCalled("3", v.ok() ? "B" + std::to_string(v.v) : "corrupt"); return test(v.v); }
+
+// listeners of a heterogeneous queue as "key:prototype:handle", in (key, prototype, list) order
+template <typename F> static long hidOfFn(const F & cb) {
+	if(auto p = cb.template target<K0>()) return p->hid;
+	if(auto p = cb.template target<K1>()) return p->hid;
+	if(auto p = cb.template target<K2>()) return p->hid;
+	if(auto p = cb.template target<K3>()) return p->hid;
+	if(auto p = cb.template target<K4>()) return p->hid;
+	if(auto p = cb.template target<K5>()) return p->hid;
+	return -1;
+}
+template <typename List> struct ListenerDump;
+template <typename ...Ps> struct ListenerDump<eventpp::HeterTuple<Ps...>> {
+	// read slot p of the event's heterogeneous list directly (forEach<Prototype> selects a slot by callability, which is
+	// not one-to-one when two prototypes accept the same arguments)
+	template <typename Proto, typename HL> static int one(const HL & hl, int key, int p, std::string & out) {
+		auto base = hl.callbackListList[p];
+		if(!base) return 0;
+		using CLT = typename HL::template HomoCallbackListType<Proto>;
+		auto lst = std::static_pointer_cast<CLT>(base);
+		lst->forEach([&](const typename CLT::Callback & cb) {
+			out += " " + std::to_string(key) + ":" + std::to_string(p) + ":" + std::to_string(hidOfFn(cb));
+		});
+		return 0;
+	}
+	static std::string run(const Queue & qq, int nkeys) {
+		std::string out;
+		for(int key = 0; key < nkeys; ++key) {
+			auto it = qq.eventCallbackListMap.find(key);
+			if(it == qq.eventCallbackListMap.end()) continue;
+			int p = 0; int dummy[] = { one<Ps>(it->second, key, p++, out)... }; (void)dummy;
+		}
+		return out;
+	}
+};
 
 static void printMatrix() {
 	std::cout << "protos " << NP << "\n";
@@ -180,6 +216,7 @@ int main(int argc, char ** argv) {
 			w->res(res ? "true" : "false");
 		}
 		else if(op == "hempty") w->res(w->q.emptyQueue() ? "true" : "false");
+		else if(op == "hcopy") { w->shadow.reset(new Queue(w->q)); w->res("unit"); }
 		else { w->out.push_back("bad-op " + op); }
 		// state: pending events as (key, prototype index), slot discipline, live Big objects
 		std::string s = "q :";
@@ -192,6 +229,8 @@ int main(int argc, char ** argv) {
 		bool bad = false; int nfree = 0;
 		for(auto it = w->q.freeList.begin(); it != w->q.freeList.end(); ++it) { ++nfree; if(!it->empty()) bad = true; }
 		w->out.push_back("slots " + std::to_string(nfree) + (bad ? " slotbad" : "") + " big " + std::to_string(g_liveBig));
+		// the copy taken by the last `hcopy` keeps the listeners it had then, whatever happens to the original
+		w->out.push_back("shadow :" + (w->shadow ? ListenerDump<Protos>::run(*w->shadow, 2) : std::string()));
 		flushOut();
 	}
 	if(w) { w.reset(); std::cout << "final-big " << g_liveBig << "\n"; }
